@@ -32,6 +32,10 @@ CASE_TIMEOUT = 5          # seconds, per case (harness alarm / tool run)
 MAX_LOGICAL = 8 << 20     # announced logical size above which an archive is not given to the tools
 
 
+def hx(b):
+    return b.hex() or "-"
+
+
 def _load_gen():
     spec = importlib.util.spec_from_file_location("c07_gen", os.path.join(HERE, "gen.py"))
     m = importlib.util.module_from_spec(spec)
@@ -303,8 +307,10 @@ def report_incident(ctx, part, case_repr, kind, err, replay):
         ctx.violation("crash:%s:%s" % (part, sig or kind), "%s harness died (%s): %s" % (part, kind, (err or "")[k:k + 900]), replay)
 
 
-def compare(ctx, part, lines, outs_c, outs_m, inc_c, replay_of, search=None, lenient=None):
-    """generic verdict+payload comparison.  Returns number of agreeing cases."""
+def compare(ctx, part, lines, outs_c, outs_m, inc_c, replay_of, search=None, lenient=None, neighbours=None):
+    """generic verdict+payload comparison.  Returns number of agreeing cases.
+    neighbours(i) -> list of (signature, text, replay): concrete property failures found on the disagreeing input and
+    its edits (harness under ASan with exactly sized blocks, and the ASan tool)"""
     died = {i for i, _, _ in inc_c}
     seen = set()
     for i, kind, err in inc_c:
@@ -331,6 +337,18 @@ def compare(ctx, part, lines, outs_c, outs_m, inc_c, replay_of, search=None, len
             ctx.violation("model:%s:%s" % (part, m.split()[0]), "extracted %s model answered %s" % (part, m[:80]), replay_of(i), no_input=True)
             continue
         found = search(i) if search else None
+        near = []
+        if neighbours:
+            for j in mism[:3]:
+                if not (outs_m[j] or "").startswith(("CRASH", "FUEL", "MODEL-INCONSISTENT", "DRIVER-EXN")):
+                    near += neighbours(j)
+        seen_near = set()
+        for sig, txt, rp in near:
+            if sig in seen_near:
+                continue
+            seen_near.add(sig)
+            ctx.violation(sig, "tie %s broke (impl=%r model=%r); searching the edits of that line at the quoting case splits: %s"
+                          % (part, (outs_c[i] or "")[:120], m[:120], txt), rp)
         if found:
             ctx.violation("tool:%s:%s" % (part, found[0]), "tie %s broke (impl=%r model=%r) and the tool violates the property on that input: %s"
                           % (part, (outs_c[i] or "")[:120], m[:120], found[1]), replay_of(i))
@@ -341,7 +359,9 @@ def compare(ctx, part, lines, outs_c, outs_m, inc_c, replay_of, search=None, len
                  other_mismatches=len(mism))
         ctx.violation("tie:%s" % part, "correspondence %s broken on %d of %d cases, first: impl=%r model=%r; %s"
                       % (part, len(mism), len(lines), (outs_c[i] or "")[:160], m[:160],
-                         "tool level on that input: " + found[0] if found else "no property failure found at tool level"), r, no_input=True)
+                         "tool level on that input: " + found[0] if found else
+                         ("property failures on edits of that input: " + ", ".join(sorted(seen_near)) if near else "no property failure found at tool level")),
+                      r, no_input=True)
     return agree
 
 
@@ -545,22 +565,29 @@ def text_cases(rnd, tier):
         b"\"\\\\\"", b"\"\\x\"", b"a\\b", b"a,b,,c", b",,,", b"a,\"b,c\",d", b"  a   b  ", b"\t\ta\tb", b"a\0b c", b"\"a\0b\" c",
         b"glob,dont_fragment", b" glob , nosparse ", b"\"glob\"", b"\"a b\" \"c\\\"d\" e"]
     alpha = b"\"\\ ,\tab\0"
+    lines += gen.PACK_QUOTE_LINES
     for l in lines:
         if len(l) > 4000:
             continue
         for sp in seps[:2] if len(l) > 40 else seps:
             split.append("%s %s" % (hx(sp), hx(l)))
+    # every string of <= 5 (thorough: 7) symbols over {quote, backslash, letter, blank}: all paths through the unquoting loop
+    qenum = gen.quote_enum(5 if q else 7)
+    for l in qenum:
+        split.append("%s %s" % (hx(b" \t"), hx(l)))
+        split.append("%s %s" % (hx(b" \t"), hx(b"dir \"" + l)))
     for _ in range(2500 if q else 120000):
         l = bytes(rnd.choice(alpha[:-1] if rnd.random() < 0.85 else alpha) for _ in range(rnd.randrange(0, 12)))
         split.append("%s %s" % (hx(rnd.choice(seps)), hx(l)))
     maxl = 3000 if q else 20000
-    sort = [hx(l) for l in gen.SORT_LINES if len(l) < maxl] + [hx(l) for l in gen.SORT_BASE.split(b"\n")]
+    sort = [hx(l) for l in gen.SORT_LINES + gen.SORT_QUOTE_LINES if len(l) < maxl] + [hx(l) for l in gen.SORT_BASE.split(b"\n")]
+    sort += [hx(b"5 \"" + l) for l in qenum] + [hx(b"5 [glob] \"" + l) for l in gen.quote_enum(4 if q else 6)]
     # structured: priority, optional flag list, (quoted) name -- mostly valid, every part occasionally hostile
     prios = [b"0", b"5", b"-5", b"-0", b"007", b"9223372036854775806", b"-9223372036854775806", b"9223372036854775807", b"+1", b"", b"5x"]
     fl = [b"glob", b"glob_no_path", b"dont_fragment", b"dont_compress", b"dont_deduplicate", b"nosparse", b" glob", b"glob ", b"\tnosparse\t",
           b"\"glob\"", b"\"gl\\\\ob\"", b"bogus", b"", b"Glob", b"glob\0x", b"\"nosparse", b"dont_compress\""]
     names = [b"file", b"sub/dir/f", b"./a//b/", b"/abs", b"..", b"a/../b", b"\"name with space\"", b"\"q\\\"uote\"", b"\"back\\\\slash\"", b"\"bad\\escape\"",
-             b"\"unterminated", b"\"trailing\"x", b"\"\"", b"*.txt", b"a b", b"\"a/./b//\"", b"\"..\"", b"[x]", b"\xff\xfe"]
+             b"\"unterminated", b"\"trailing\"x", b"\"\"", b"*.txt", b"a b", b"\"a/./b//\"", b"\"..\"", b"[x]", b"\xff\xfe"] + gen.QUOTE_TAILS[:-1]
     for _ in range(1200 if q else 50000):
         l = rnd.choice(prios if rnd.random() < 0.2 else prios[:4]) + rnd.choice([b" ", b" ", b"  ", b"\t", b""])
         if rnd.random() < 0.6:
@@ -578,14 +605,17 @@ def text_cases(rnd, tier):
         sort.append(hx(b"".join(rnd.choice(salpha) for _ in range(rnd.randrange(1, 9)))))
     sort = sorted(set(sort))
     xdec = []
-    for l in gen.XATTR_LINES + gen.XATTR_BASE.split(b"\n"):
+    for l in gen.XATTR_LINES + gen.XATTR_QUOTE_LINES + gen.XATTR_BASE.split(b"\n"):
         if b"=" in l and len(l) < 30000:
             xdec.append(hx(l.split(b"=", 1)[1]))
+    xdec += [hx(b"\"" + l) for l in gen.quote_enum(5 if q else 6, (b"\"", b"\\", b"a", b"1"))]
     xalpha = [b"0", b"x", b"X", b"s", b"S", b"\"", b"\\", b"1", b"7", b"8", b"a", b"Q", b"=", b"g", b" "]
     for _ in range(2000 if q else 80000):
         xdec.append(hx(b"".join(rnd.choice(xalpha) for _ in range(rnd.randrange(0, 9)))))
     xdec = sorted(set(xdec))
     xfile = [hx(m) for m in gen.text_mutants(rnd, gen.XATTR_BASE, [l for l in gen.XATTR_LINES if len(l) < 2000], 250 if q else 10000)]
+    xfile += [hx(b"# file: file\n" + l + b"\n") for l in gen.XATTR_QUOTE_LINES if len(l) < 2000]
+    xfile += [hx(l + b"\nuser.a=b\n") for l in gen.XATTR_QUOTE_LINES if l.startswith(b"#") and len(l) < 2000]
     xfile = sorted(set(xfile))
     return dict(split=split, sort=sort, xdec=xdec, xfile=xfile)
 
@@ -625,7 +655,55 @@ def part_text(ctx, info, drv, tools, stats):
             if mode == "xfile":
                 return tools.gensquashfs(xattr=raw)
             return tools.gensquashfs(pack=raw + b"\n")
-        agree = compare(ctx, "text-" + mode, lines, outs_c, outs_m, inc_c, replay_of, search)
+        def tool_kw(mode, raw):
+            if mode == "sort":
+                return "sort", dict(sort=raw + b"\n")
+            if mode == "xdec":
+                return "xattr", dict(xattr=b"# file: file\nuser.a=" + raw + b"\n")
+            if mode == "xfile":
+                return "xattr", dict(xattr=raw)
+            return "pack", dict(pack=raw + b"\n")
+
+        def neighbours(i, mode=mode, lines=lines):
+            """the disagreeing line and its edits at the quoting case splits (gen.quote_mutants): each one in an exactly
+            sized heap block on the ASan harness (same mode), and as a one-line file on the ASan tool"""
+            parts = lines[i].split(" ")
+            raw = bytes.fromhex(parts[-1].replace("-", ""))
+            if mode == "xfile":       # edit every line of the file that has a quote or a backslash (else the last one)
+                fl = raw.split(b"\n")
+                cand = [k for k, l in enumerate(fl) if b"\"" in l or b"\\" in l][:3] or [max(0, len(fl) - 2)]
+                muts = [raw]
+                for k in cand:
+                    muts += [b"\n".join(fl[:k] + [m] + fl[k + 1:]) for m in gen.quote_mutants(fl[k], 60)[1:]]
+            else:
+                muts = gen.quote_mutants(raw)
+            cl = [" ".join(parts[:-1] + [hx(m)]) for m in muts]
+            found = []
+            o, inc = run_batch([h, mode, os.path.join(ctx.scratch, "xfile-near.tmp")], cl, ASAN_ENV, timeout=120, max_restarts=4)
+            for j, kind, err in inc[:1]:
+                sig = san_signature(err or "") or kind
+                k = max((err or "").find("ERROR: AddressSanitizer"), (err or "").find("runtime error:") - 120, 0)
+                what = ("hang" if kind == "timeout" else "crash")
+                found.append(("%s:text-%s:%s" % (what, mode, sig) if what == "crash" else "hang:text-%s" % mode,
+                              "the %s harness (line in an exactly sized heap block) %s on %r: %s"
+                              % (mode, "does not return" if what == "hang" else "dies (%s)" % kind, muts[j][:200], (err or "")[k:k + 700]),
+                              dict(part="text", mode=mode, case=cl[j], edit_of=lines[i], line=repr(muts[j][:400]))))
+            for j, line_out in enumerate(o):
+                if line_out and "STAGED-" in line_out:
+                    found.append(("stale:text-%s" % mode, "the verdict on %r depends on what lies behind the terminating NUL of the string "
+                                  "a stage is given: %s" % (muts[j][:200], line_out[:100]),
+                                  dict(part="text", mode=mode, case=cl[j], edit_of=lines[i], line=repr(muts[j][:400]))))
+                    break
+            with ThreadPoolExecutor(max_workers=8) as ex:
+                res = list(ex.map(lambda m: tools.gensquashfs(**tool_kw(mode, m)[1]), muts))
+            for m, r in zip(muts, res):
+                if r:
+                    kind, kw = tool_kw(mode, m)
+                    found.append(("tool:gensquashfs:%s:%s" % (kind, r[0]), "gensquashfs with the %s file %r: %s" % (kind, list(kw.values())[0][:200], r[1]),
+                                  dict(part="text-tool", kind=kind, edit_of=lines[i], **{k + "_b64": base64.b64encode(v).decode() for k, v in kw.items()})))
+                    break
+            return found
+        agree = compare(ctx, "text-" + mode, lines, outs_c, outs_m, inc_c, replay_of, search, neighbours=neighbours)
         total += len(lines)
         nontriv += len({(l, o) for l, o in zip(lines, outs_c) if o and o.startswith("OK")})
         stats["text-" + mode] = dict(cases=len(lines), agree=agree, ok=sum(1 for o in outs_c if o and o.startswith("OK")),
@@ -644,6 +722,13 @@ def part_text_tools(ctx, tools, stats):
     for s in gen.text_mutants(rnd, gen.SORT_BASE, gen.SORT_LINES, 60 if q else 3000):
         jobs.append(("sort", dict(sort=s)))
     for x in gen.text_mutants(rnd, gen.XATTR_BASE, gen.XATTR_LINES, 60 if q else 3000):
+        jobs.append(("xattr", dict(xattr=x)))
+    # quoting case splits: the valid file followed by one line whose quoted token ends in each case of the unquoting loop
+    for p in gen.quote_files(gen.PACK_BASE, gen.PACK_QUOTE_LINES, [b"dir ", b"file "] if q else [b"dir ", b"file ", b"slink ", b"glob ", b"\""]):
+        jobs.append(("pack", dict(pack=p)))
+    for s in gen.quote_files(gen.SORT_BASE, gen.SORT_QUOTE_LINES, [b"10 ", b"5 [glob] "] if q else [b"10 ", b"5 [", b"\""]):
+        jobs.append(("sort", dict(sort=s)))
+    for x in gen.quote_files(gen.XATTR_BASE, gen.XATTR_QUOTE_LINES, [b"user.q=", b"# file: "]):
         jobs.append(("xattr", dict(xattr=x)))
     fails = {}
     counts = {}
@@ -728,7 +813,8 @@ def run(ctx):
     info = B.build("asan")
     drv = build_driver()
     tools = Tools(ctx, info)
-    ctx.trusted += ["props/C07/h_hardlink.c, h_tar.c, h_text.c, driver.ml (hex I/O glue, canonical printing, exact-size heap copies of every input)",
+    ctx.trusted += ["props/C07/h_hardlink.c, h_tar.c, h_text.c, driver.ml (hex I/O glue, canonical printing, exact-size heap copies of every input; "
+                    "sort lines: every stage once more on an exact-size copy of the string it is given)",
                     "ASan/UBSan verdicts (gcc -fsanitize=address,undefined -fno-sanitize-recover=all), SIGALRM time-out of %d s per case" % CASE_TIMEOUT,
                     "props/C07/gen.py (own tar encoder, mutators), vlib/sqfsimg.py validator for produced images",
                     "props/C07/gen_c07.c: translator /repo headers + <errno.h> -> coq/C07/GenC07.v (regenerated on every run)",
@@ -770,7 +856,10 @@ def run(ctx):
         "all insertion orders for k<=3 (seeded orders for k=4 in the quick tier), long and rho-shaped chains; "
         "tar: structure-aware mutation of own-encoded archives of every dialect (header fields to boundary values, K/L/x sizes 0,1,limit-1,limit,limit+1, "
         "PAX length fields lying both ways, sparse 1.0 numbers on the 512/1024 window edges, old-sparse extension chains), truncation at every offset of small archives, "
-        "checksum-repaired bit flips; decoders: boundary tables + seeded random fields; text: one-line edits of valid pack/sort/xattr files + a table of hostile lines; seed %d. "
+        "checksum-repaired bit flips; decoders: boundary tables + seeded random fields; text: one-line edits of valid pack/sort/xattr files + a table of hostile lines + quoting case splits "
+        "(token ends: lone quote / backslash / escaped quote / escaped backslash / closed / closed+blank in 2-6 contexts per parser; every string of <= 5 symbols "
+        "over {quote, backslash, letter, blank} behind an opening quote); a text tie disagreement is followed by a search over the line's edits at the case "
+        "splits on the ASan harness and the ASan tool; seed %d. "
         "non-trivial = the model reaches a resolver verdict (hl), decodes at least one header or rejects after the checksum (tar), decoder accepts (dec)" % ctx.seed)
     ctx.coverage["distribution"] = stats
     ctx.add_samples(samples)
